@@ -829,14 +829,14 @@ impl Ctx {
         self.rep.count_n("battery:answers-compared", got.len() as u64);
         if let Some((k, method, arg, a, b)) = battery::first_difference(want, &got) {
             // an answer that depends on the iteration order of a hash set is not a difference
-            if battery::original_also_answers(orig, args, k, &b, 64) {
+            if battery::construction_dependent(orig, args, k, &a, &b, 64) {
                 self.rep.count(&format!("battery:construction-dependent:{name}:{method}"));
                 // look past it: compare the rest with this question masked
                 let mut w2 = want.to_vec();
                 let mut g2 = got.clone();
                 let mut guard_n = 0;
                 while let Some((k2, m2, a2, x2, y2)) = battery::first_difference(&w2, &g2) {
-                    if guard_n < 8 && battery::original_also_answers(orig, args, k2, &y2, 64) {
+                    if guard_n < 256 && battery::construction_dependent(orig, args, k2, &x2, &y2, 64) {
                         self.rep.count(&format!("battery:construction-dependent:{name}:{m2}"));
                         w2[k2].2.clear();
                         g2[k2].2.clear();
